@@ -13,6 +13,7 @@ from ..core import AnalysisError, own_nodes, norm, parents, stmt_of
 from ..effects import Effects, Resolver
 from .. import pdrules, flow, rules
 from . import C10
+from .C09 import PoolStub, pool_hook
 
 LEVEL_TEXT = ("static analysis: (D1) copy-on-write lost-write rule over cnvlib/segmentation/*.py (a store whose target is reached through a "
               "property / column / indexing temporary never reaches the table on pandas >= 3) plus a positive must-flow: in transfer_fields "
@@ -330,21 +331,8 @@ def d4(chk, prog):
         ok = not raises and (want is None or callee == want)
         chk.decide(ok, "method-dispatch", f"method {m!r} -> {callee or 'R script branch'}", f"{fi.qn}::dispatch {m}", fi.loc(chain),
                    f"method {m!r} " + ("falls through to the error branch" if raises else f"is routed to {callee}, expected {want}"))
-    # do_segmentation: whole-array set
+    # which methods run on the whole array / per arm, and the unknown-method guard: decided by the interpreted driver table in D5
     fd = prog.fn("cnvlib.segmentation.do_segmentation")
-    whole_if = next((n for n in own_nodes(fd.node) if isinstance(n, ast.If) and "method" in norm(n.test) and any("_do_segmentation" in norm(s) for s in n.body)), None)
-    if whole_if is None:
-        raise AnalysisError("do_segmentation: whole-array / per-arm branch vanished")
-    for m in methods:
-        whole = truth(it.ev(whole_if.test, {"method": m, "__mod__": fd.mod}))
-        want = m == "flasso" or m.startswith("hmm")
-        chk.decide(whole == want, "method-dispatch", f"method {m!r} runs {'on the whole array' if whole else 'per chromosome arm'}", f"{fd.qn}::scope {m}", fd.loc(whole_if),
-                   f"method {m!r} must run {'on the whole array' if want else 'per arm through the pool'}")
-    per_arm = [n for b in whole_if.orelse for n in ast.walk(b) if isinstance(n, ast.Call) and isinstance(n.func, ast.Attribute) and n.func.attr == "by_arm"]
-    chk.decide(bool(per_arm), "method-dispatch", "per-arm branch iterates cnarr.by_arm()", f"{fd.qn}::by_arm", fd.loc(), "the parallel branch no longer splits by chromosome arm")
-    # membership test + CLI choices
-    guard = [n for n in own_nodes(fd.node) if isinstance(n, ast.If) and norm(n.test) == "method not in SEGMENT_METHODS" and any(isinstance(s, ast.Raise) for s in n.body)]
-    chk.decide(bool(guard), "method-dispatch", "unknown method raises ValueError", f"{fd.qn}::method guard", fd.loc(), "do_segmentation no longer rejects unknown method names")
     cmds = prog.module("cnvlib.commands")
     cho = [norm(k.value) for n in ast.walk(cmds.tree) if isinstance(n, ast.Call) and isinstance(n.func, ast.Attribute) and n.func.attr == "add_argument"
            for k in n.keywords if k.arg == "choices" and "SEGMENT_METHODS" in norm(k.value)]
@@ -364,14 +352,64 @@ def d5(chk, prog):
         chk.decide(n.func.attr == "map", "ordered-fanout", f"{fi.qn}: pool.{n.func.attr}({norm(n.args[0]) if n.args else ''})", f"{fi.qn}::pool.{n.func.attr}", fi.loc(n),
                    f"pool.{n.func.attr} does not preserve submission order")
     fd = prog.fn("cnvlib.segmentation.do_segmentation")
-    cc = [n for n in own_nodes(fd.node) if isinstance(n, ast.Call) and isinstance(n.func, ast.Attribute) and n.func.attr == "concat" and n.args and norm(n.args[0]) == "rets"]
-    chk.decide(bool(cc), "ordered-fanout", "per-arm results combined with cnarr.concat(rets) (which sorts)", f"{fd.qn}::concat", fd.loc(), "per-arm results are no longer concatenated through GenomicArray.concat")
     gc = prog.fn("skgenome.gary.GenomicArray.concat")
     sorts = [n for n in own_nodes(gc.node) if isinstance(n, ast.Call) and isinstance(n.func, ast.Attribute) and n.func.attr == "sort"]
     chk.decide(bool(sorts), "ordered-fanout", "GenomicArray.concat sorts its result", f"{gc.qn}::sort", gc.loc(), "concat no longer sorts: arm order would depend on scheduling")
-    ds = prog.fn("cnvlib.segmentation._ds")
-    ok = any(isinstance(n, ast.Call) and norm(n.func) == "_do_segmentation" and n.args and isinstance(n.args[0], ast.Starred) for n in own_nodes(ds.node))
-    chk.decide(ok, "ordered-fanout", "_ds(args) == _do_segmentation(*args): serial and parallel paths share one worker", f"{ds.qn}::worker", ds.loc(), "the pool worker no longer forwards to _do_segmentation")
+    # the driver, interpreted: who is segmented (whole array / each arm in order), with which options, and how the parts are combined
+    seg = prog.module("cnvlib.segmentation")
+    methods = list(ast.literal_eval(seg.assigns["SEGMENT_METHODS"]))
+    tb = Table(chk, "ordered-fanout", "do_segmentation: per-arm methods segment every arm once, in order, with the caller's options, 1 or 3 processes alike; whole-array methods the array itself; unknown methods raise",
+               fd.loc(), fd.qn)
+    arms = [("chr1", "p"), ("chr1", "q"), ("chr2", "p")]
+    for m, procs, save in itertools.product(methods + ["bogus"], [1, 3], [False, True]):
+        W.reset()
+        model = Model()
+        calls, concat_args = [], []
+        whole = make_ga("CopyNumArray", [dict(chromosome=c, start=i, end=i + 1, gene="g", log2=Term.sym(f"v{i}")) for i, (c, _a) in enumerate(arms)], {"sample_id": "S", "part": "whole"}, index="any", exact=True)
+        parts = [make_ga("CopyNumArray", [dict(chromosome=c, start=i, end=i + 1, gene="g", log2=Term.sym(f"v{i}"))], {"sample_id": "S", "part": f"{c}{a}"}, exact=True) for i, (c, a) in enumerate(arms)]
+        model.method_prims["by_arm"] = lambda it, g, *a, **k: [(f"{c}{a}", p) for (c, a), p in zip(arms, parts)]
+        model.prims["cnvlib.parallel.pick_pool"] = lambda it, n: PoolStub(it, n)
+        model.method_hooks.append(pool_hook)
+
+        def worker(it, cn, method, dpg, threshold, variants=None, skip_low=False, skip_outliers=10, min_weight=0, save_dataframe=False, rscript_path="Rscript", smooth_cbs=False, calls=calls):
+            calls.append((cn.meta.get("part"), method, dpg, repr(threshold), variants, skip_low, skip_outliers, min_weight, save_dataframe, rscript_path, smooth_cbs))
+            out = make_ga("CopyNumArray", [dict(chromosome="chr1", start=0, end=1, gene="-", log2=0, probes=1)], {"sample_id": "S", "segments_of": cn.meta.get("part")}, exact=True)
+            return (out, f"header\nrows of {cn.meta.get('part')}\n") if save_dataframe else out
+        model.prims["cnvlib.segmentation._do_segmentation"] = worker
+
+        def concat(it, g, others, concat_args=concat_args):
+            others = list(it.iterate(others))
+            concat_args.append([o.meta.get("segments_of") for o in others])
+            return make_ga("CopyNumArray", [dict(chromosome="chr1", start=0, end=1, gene="-", log2=0, probes=1)], {"sample_id": "S", "segments_of": "concat"}, exact=True)
+        model.method_prims["concat"] = concat
+        model.method_prims["sort_columns"] = lambda it, g: None
+        it = Interp(prog, model)
+        opts = dict(threshold=Fr(3, 1000), variants="VARR", skip_low=True, skip_outliers=7, min_weight=Fr(1, 4), rscript_path="/opt/Rscript", smooth_cbs=True)
+        try:
+            out = it.run(fd.qn, [whole, m, "grch38", opts["threshold"], opts["variants"], opts["skip_low"], opts["skip_outliers"], opts["min_weight"], save, opts["rscript_path"], procs, opts["smooth_cbs"]])
+            raised = None
+        except Raised as r:
+            out, raised = None, str(r)
+        except Undecided as u:
+            tb.undecided.append(f"method={m} processes={procs} save_dataframe={save}: {u}")
+            continue
+        if m == "bogus":
+            tb.cell(raised is not None and "ValueError" in raised and not calls, dict(method=m, raised=raised, worker_calls=len(calls)))
+            continue
+        per_arm = m in ("none", "haar", "cbs")
+        base = ("grch38", repr(Fr(3, 1000)), "VARR", True, 7, Fr(1, 4), save, "/opt/Rscript")
+        if per_arm:
+            want_calls = [(f"{c}{a}", m) + base + (True,) for c, a in arms]
+            ok = calls == want_calls and concat_args == [[f"{c}{a}" for c, a in arms]]
+        else:
+            # smooth_cbs concerns cbs only; the whole-array call may leave it at its default
+            ok = len(calls) == 1 and calls[0][:10] == ("whole", m) + base and not concat_args
+        res = out[0] if (save and isinstance(out, tuple)) else out
+        ok = ok and raised is None and isinstance(res, GA) and res.meta.get("segments_of") == ("concat" if per_arm else "whole")
+        if save and raised is None:
+            ok = ok and isinstance(out, tuple) and len(out) == 2 and (out[1] == ("header\n" + "".join(f"rows of {c}{a}\n" for c, a in arms)) if per_arm else out[1] == "header\nrows of whole\n")
+        tb.cell(ok, dict(method=m, processes=procs, save_dataframe=save, worker_calls=[c[:2] for c in calls], concat=concat_args, raised=raised))
+    tb.done("do_segmentation does not segment every arm (or the whole array) exactly once, in order, with the caller's options, or combines the parts out of order")
 
 
 def d6(chk, prog):
@@ -425,6 +463,32 @@ MUTANTS = [
     dict(name="haar on the whole array", file=_S, old='    if method == "flasso" or method.startswith("hmm"):', new='    if method in ("flasso", "haar") or method.startswith("hmm"):'),
     dict(name="none: end of first bin", file="cnvlib/segmentation/none.py", old="            cnarr.end.iat[-1],", new="            cnarr.end.iat[0],"),
     dict(name="segment_mean ignores weights", file="cnvlib/segmetrics.py", old='        return np.average(cnarr["log2"], weights=cnarr["weight"])', new='        return np.average(cnarr["log2"])'),
+    dict(name="per-arm results combined in reverse", file=_S, old="        cna = cnarr.concat(rets)\n", new="        cna = cnarr.concat(rets[::-1])\n"),
+    dict(name="parallel worker drops skip_low", file=_S, old="                            variants,\n                            skip_low,\n                            skip_outliers,\n                            min_weight,\n                            save_dataframe,\n                            rscript_path,\n                            smooth_cbs,", new="                            variants,\n                            False,\n                            skip_outliers,\n                            min_weight,\n                            save_dataframe,\n                            rscript_path,\n                            smooth_cbs,"),
+    dict(name="whole-array call swaps skip_low and skip_outliers", file=_S, old="            variants,\n            skip_low,\n            skip_outliers,\n            min_weight,\n            save_dataframe,\n            rscript_path,\n        )", new="            variants,\n            skip_outliers,\n            skip_low,\n            min_weight,\n            save_dataframe,\n            rscript_path,\n        )"),
+    dict(name="twin: per-arm arguments built as a list first", expect="silent", file=_S, old="""            rets = list(
+                pool.map(
+                    _ds,
+                    (
+                        (
+                            ca,
+                            method,
+                            diploid_parx_genome,
+                            threshold,
+                            variants,
+                            skip_low,
+                            skip_outliers,
+                            min_weight,
+                            save_dataframe,
+                            rscript_path,
+                            smooth_cbs,
+                        )
+                        for _, ca in cnarr.by_arm()
+                    ),
+                )
+            )""", new="""            common = (method, diploid_parx_genome, threshold, variants, skip_low, skip_outliers, min_weight, save_dataframe, rscript_path, smooth_cbs)
+            jobs = [(arm_arr,) + common for _name, arm_arr in cnarr.by_arm()]
+            rets = [r for r in pool.map(_ds, jobs)]"""),
     dict(name="seeded C03c: hmm keeps a pre-existing probes column", file="cnvlib/segmentation/hmm.py", old='    cnarr["probes"] = 1\n', new=""),
     dict(name="seeded C03d: gene names by consecutive runs", edits=[(_S, "        subgenes = [g for g in pd.unique(bin_genes[bin_idx]) if g not in ignore]", "        subgenes = [g for g, _run in itertools.groupby(b for b in bin_genes[bin_idx] if b not in ignore)]"), (_S, "import locale\n", "import locale\nimport itertools\n")]),
     dict(name="hmm squashes the smoothed log2", file="cnvlib/segmentation/hmm.py", old='    cnarr["log2"] = orig_log2\n', new=""),
